@@ -142,6 +142,31 @@ def enum_a(col, max_size, max_len, part, nparts):
             col.label("A:trees")
 
 
+def enum_family(col, part, nparts, max_len):
+    """find_all over the nullable-repetition family (non-nullable members only)."""
+    from vf.props.c13 import BuildMemo
+
+    m = _matcher()
+    seqs = list(P.sequences(P.ATOMS, max_len))
+    fam = [t for t in P.nullable_repetition_family() if not R.nullable(R.norm(t))]
+    for i, tree in enumerate(fam):
+        if i % nparts != part:
+            continue
+        expr = P.to_expr(tree)
+        n = nt = 0
+        with BuildMemo():
+            for s in seqs:
+                n += 1
+                is_nt = nontrivial_a(tree, s)
+                nt += is_nt
+                res = check_tree_seq(tree, expr, s, m)
+                if res:
+                    col.fail({"kind": "tree", "tree": P.to_json(tree), "seq": "".join(s)}, res[0], res[1])
+                    break
+        col.bulk(n, nt)
+    col.label("A:nullable-repetition-family")
+
+
 def gen_a(col, seed, n):
     strat = st.tuples(P.tree_strategy(7), st.text(alphabet="abc", max_size=24)).filter(lambda v: not R.nullable(R.norm(v[0])))
 
@@ -418,6 +443,8 @@ def plan(tier, seed):
             full_done.add(shape)
             for first in alpha:
                 jobs.append(("enum_b", {"lname": lname, "k": k, "shape": shape, "alphabet": alpha, "max_len": mlen, "first": first}))
+    for p in range(8):
+        jobs.append(("enum_family", {"part": p, "nparts": 8, "max_len": 5 if quick else 6}))
     n = 2000 if quick else 40000
     for i in range(4):
         jobs.append(("gen_a", {"seed": shard_seed(seed, ID, i), "n": n // 4}))
